@@ -128,10 +128,10 @@ fn s_examples(i: u64, ctx: &mut Ctx) -> Result<(), Failure> {
 
 pub fn streams() -> Vec<Stream> {
     vec![
-        Stream { name: "uninspected", kind: Kind::Tape { cases: |t: Tier| t.pick(4_000, 200_000), max_len: 300, f: s_uninspected }, isolate: false },
+        Stream { name: "uninspected", kind: Kind::Tape { cases: |t: Tier| t.pick(40_000, 800_000), max_len: 300, f: s_uninspected }, isolate: false },
         Stream {
             name: "examples",
-            kind: Kind::Enum { count: |t: Tier| seeds::examples().len() as u64 * t.pick(4, 40), complete: |_| false, f: s_examples },
+            kind: Kind::Enum { count: |t: Tier| seeds::examples().len() as u64 * t.pick(8, 80), complete: |_| false, f: s_examples },
             isolate: false,
         },
     ]
